@@ -701,6 +701,33 @@ func (x *workerA) blockStep(ctx sdk.Context, c *CfgA, tick int, fl []flight, out
 	val := c.val().ValAddress
 	fk := x.w.App.FeedsKeeper
 	T := ctx.BlockTime().Unix()
+	if out == nil {
+		// background chain: it only has to keep the validator active so that no store outside the tracked
+		// ones ever differs from a (non-violating) explored state; every current feed is submitted as
+		// soon as the chain's cooldown allows
+		out = &stepOut{}
+		by := map[string]feedstypes.ValidatorPrice{}
+		if l, err := fk.GetValidatorPriceList(ctx, val); err == nil {
+			for _, p := range l.ValidatorPrices {
+				by[p.SignalID] = p
+			}
+		}
+		cd := fk.GetParams(ctx).CooldownTime
+		var ps []feedstypes.SignalPrice
+		for _, f := range fk.GetCurrentFeeds(ctx).Feeds {
+			if p, ok := by[f.SignalID]; !ok || p.SignalPriceStatus == feedstypes.SIGNAL_PRICE_STATUS_UNSPECIFIED || T >= p.Timestamp+cd {
+				ps = append(ps, feedstypes.NewSignalPrice(feedstypes.SIGNAL_PRICE_STATUS_AVAILABLE, f.SignalID, basePrice))
+			}
+		}
+		if len(ps) > 0 {
+			must(x.w.Tx(ctx, 0, feedstypes.NewMsgSubmitSignalPrices(val.String(), T, ps)), "background submission")
+		}
+		defer func() {
+			if len(out.viols) > 0 {
+				engine.Fatal3("C20a: background chain of %s violates at tick %d: %v", c.Name, tick, out.viols)
+			}
+		}()
+	}
 	var rest []flight
 	due := append([]flight(nil), fl...)
 	sort.SliceStable(due, func(i, j int) bool { return due[i].Due < due[j].Due })
@@ -986,11 +1013,7 @@ func searchA(cfgs []*CfgA, deadline time.Time, nworkers int) []*resultA {
 					} else {
 						bn, ok := bgNext[it.ci]
 						if !ok {
-							var o stepOut
-							nctx, _ := x.blockStep(engine.Fork(bgs[wi][it.ci]), c, tick, nil, &o)
-							if len(o.viols) > 0 {
-								engine.Fatal3("C20a: background chain of %s violates at tick %d: %v", c.Name, tick, o.viols)
-							}
+							nctx, _ := x.blockStep(engine.Fork(bgs[wi][it.ci]), c, tick, nil, nil)
 							bn = x.dumpTracked(nctx)
 							bgNext[it.ci] = bn
 							bgNextOther[it.ci] = x.otherStoresHash(nctx)
@@ -1078,8 +1101,7 @@ func searchA(cfgs []*CfgA, deadline time.Time, nworkers int) []*resultA {
 				defer wg2.Done()
 				for ci, r := range runs {
 					if kind[ci] == 2 && !r.done {
-						var o stepOut
-						bgs[wi][ci], _ = workers[wi].blockStep(bgs[wi][ci], r.c, tick, nil, &o)
+						bgs[wi][ci], _ = workers[wi].blockStep(bgs[wi][ci], r.c, tick, nil, nil)
 					}
 				}
 			}(wi)
@@ -1139,8 +1161,7 @@ func searchA(cfgs []*CfgA, deadline time.Time, nworkers int) []*resultA {
 
 // nctxOf returns the background chain of c advanced by the block of this tick (on a fork).
 func nctxOf(x *workerA, bg sdk.Context, c *CfgA, tick int) sdk.Context {
-	var o stepOut
-	n, _ := x.blockStep(engine.Fork(bg), c, tick, nil, &o)
+	n, _ := x.blockStep(engine.Fork(bg), c, tick, nil, nil)
 	return n
 }
 
